@@ -446,7 +446,7 @@ func c06TimestampPath(c *Ctx, T *ssa.Function) {
 	ld := desc(loadCall)
 	c.requireOnExits("timestamp", T, s.Exits, []Need{
 		{Name: "tsa-stores-loaded", What: "tsa loader err == nil", Subs: []string{"EQ(" + ld + "#err,nil)"}},
-		{Name: "tsa-stores-non-empty", What: "len(tsa certificates) != 0", Alt: [][]string{{"NE(len(" + ld + "#0),const:0)"}, {"GT(len(" + ld + "#0),const:0)"}}},
+		{Name: "tsa-stores-non-empty", What: "len(tsa certificates) != 0", Alt: [][]string{{"NE(len(" + res(loadCall, 0) + "),const:0)"}, {"GT(len(" + res(loadCall, 0) + "),const:0)"}}},
 	})
 	// Verify options: Roots <- pool filled only with loader certificates; CurrentTime <- timestamp.Value
 	var verify *ssa.Call
@@ -485,7 +485,7 @@ func c06TimestampPath(c *Ctx, T *ssa.Function) {
 				switch calleeName(call) {
 				case "(*crypto/x509.CertPool).AddCert":
 					n++
-					if !strings.HasPrefix(desc(call.Call.Args[1]), ld+"#0[") {
+					if !strings.HasPrefix(desc(call.Call.Args[1]), res(loadCall, 0)+"[") {
 						okRoots = false
 						detail = "a certificate from " + desc(call.Call.Args[1]) + " is added to the TSA root pool"
 					}
